@@ -497,6 +497,8 @@ def verify_unit(unit, canary=True, extra=()):
     r.map = m
     text = open(m["rs"]).read()
     lines = text.split("\n")
+    if m.get("verify_only"):
+        extra = list(extra) + ["--verify-function", m["verify_only"], "--verify-root"]
     res = _run_verus(m["rs"], extra)
     r.cmd = res["cmd"]
     r.wall = res["wall"]
